@@ -69,11 +69,12 @@ type MethodRules struct {
 }
 
 // RuleSet holds one MethodRules per service (service i is rt.Svc<i>, its
-// only method is Mth<i>).
+// only method is Mth: all methods deliberately share their short name, only
+// the fully-qualified names differ).
 type RuleSet []MethodRules
 
 // MethodName returns the full gRPC method name of service i.
-func MethodName(i int) string { return fmt.Sprintf("/rt.Svc%d/Mth%d", i, i) }
+func MethodName(i int) string { return fmt.Sprintf("/rt.Svc%d/Mth", i) }
 
 // ServiceName returns the service name of service i.
 func ServiceName(i int) string { return fmt.Sprintf("rt.Svc%d", i) }
@@ -153,7 +154,7 @@ func World(rs RuleSet, annotate bool) *dyn.World {
 func WorldRules(rules []*annotations.HttpRule) *dyn.World {
 	var svcs []*descriptorpb.ServiceDescriptorProto
 	for i, r := range rules {
-		ms := dyn.MethodSpec{Name: fmt.Sprintf("Mth%d", i), In: ".rt.Req", Out: ".rt.Req", Rule: r}
+		ms := dyn.MethodSpec{Name: "Mth", In: ".rt.Req", Out: ".rt.Req", Rule: r}
 		svcs = append(svcs, dyn.Svc(fmt.Sprintf("Svc%d", i), ms))
 	}
 	w, err := dyn.NewWorld(dyn.File("rt.proto", Pkg, msgs, enums, svcs))
